@@ -488,6 +488,32 @@ def batch_item_consistency(ctx, aotools, rng):
             ctx.close("batch_item:" + name, got, it.astype(got.dtype) if got.shape == it.shape else it, 1e-11 * sc, "batch_item_differs:" + name, {"function": name, "item": i, "stack_depth": k}, scale=sc)
 
 
+def seed_objects_untouched(ctx, aotools, rng):
+    """Seeds that are objects (SeedSequence, BitGenerator-free sequences, arrays) are arguments too: the same object used for
+    two calls gives the same screen twice and is left as it was (SeedSequence.spawn, for one, counts the children it handed out)."""
+    calls = (("ft_phase_screen", lambda sd: aotools.ft_phase_screen(0.2, 12, 0.1, 20.0, 0.01, seed=sd)),
+             ("ft_sh_phase_screen", lambda sd: aotools.ft_sh_phase_screen(0.2, 12, 0.1, 20.0, 0.01, seed=sd)),
+             ("PhaseScreenVonKarman", lambda sd: aotools.PhaseScreenVonKarman(8, 0.1, 0.2, 20.0, random_seed=sd).scrn),
+             ("PhaseScreenKolmogorov", lambda sd: aotools.PhaseScreenKolmogorov(9, 0.1, 0.2, 20.0, random_seed=sd).scrn))
+    k = int(rng.integers(0, 2 ** 31))
+    for name, fn in calls:
+        for kind, make, state in (("SeedSequence", lambda: np.random.SeedSequence(k), lambda o: (o.entropy, o.spawn_key, o.pool_size, o.n_children_spawned, digest(o.generate_state(4)))),
+                                  ("int64_array", lambda: np.array([k, 3, 5], dtype=np.int64), lambda o: digest(o)),
+                                  ("list", lambda: [k, 3, 5], lambda o: repr(o))):
+            sd = make()
+            before = state(sd)
+            a = np.array(fn(sd), copy=True)
+            b = np.array(fn(sd), copy=True)
+            fresh = np.array(fn(make()), copy=True)
+            ctx.case("seed_object:" + name, key=("seedobj", name, kind, k), nontrivial=True, sample={"callable": name, "seed_type": kind})
+            ctx.count("seed_object_checks")
+            ctx.count("oracle_evals")
+            w = {"callable": name, "seed_type": kind}
+            ctx.check(np.array_equal(a, b), "not_deterministic:%s:seed_object_reused" % name, "%s with the same %s object twice returns different screens" % (name, kind), w)
+            ctx.check(np.array_equal(a, fresh), "not_deterministic:%s:seed_object_reused" % name, "%s: a used %s gives another screen than an equal fresh one" % (name, kind), w)
+            ctx.check(state(sd) == before, "argument_modified:%s:seed_object" % name, "%s changed the state of the %s passed as seed" % (name, kind), w)
+
+
 def run(ctx, spec):
     import aotools
     rng = ctx.rng
@@ -513,6 +539,8 @@ def run(ctx, spec):
             ctx.count("callables_with_recipe", 1 if rep == 0 else 0)
             calls = R[n](rng)
             check_callable(ctx, aotools, n, public[n], calls, rng, others)
+    if spec["shard"] % 4 == 1:
+        seed_objects_untouched(ctx, aotools, rng)
     for rep in range(spec["reps"]):
         returned_arrays_stay_put(ctx, aotools, rng)
         batch_item_consistency(ctx, aotools, rng)
